@@ -50,6 +50,25 @@ func (g *G) asCases() {
 	}
 }
 
+func (g *G) round6Cases() {
+	for _, s := range suites {
+		for _, a := range asAttacks2 {
+			for _, cc := range []int{0, 1} {
+				for _, cr := range []int{0, 1} {
+					g.emit("AS", fmt.Sprintf("%04x %s cc=%d,cr=%d", s, a, cc, cr))
+				}
+			}
+		}
+	}
+	for _, s := range suites {
+		for _, a := range acAttacks2 {
+			for auth := 0; auth <= 4; auth++ {
+				g.emit("AC", fmt.Sprintf("%04x %s %d", s, a, auth))
+			}
+		}
+	}
+}
+
 func (g *G) acCases() {
 	for _, s := range suites {
 		for _, a := range acAttacks {
@@ -133,7 +152,7 @@ func gen(seed uint64, tier string, o *hx.Out) {
 	for _, s := range []struct {
 		name string
 		f    func()
-	}{{"AS", g.asCases}, {"AC", g.acCases}, {"AM", g.amCases}, {"AN", g.anCases}, {"PA", g.paCases}, {"PD", g.pdCases}} {
+	}{{"AS", g.asCases}, {"AC", g.acCases}, {"AM", g.amCases}, {"AN", g.anCases}, {"PA", g.paCases}, {"PD", g.pdCases}, {"AS/AC round 6", g.round6Cases}} {
 		t0, n0 := time.Now(), g.id
 		s.f()
 		g.flush()
